@@ -118,6 +118,11 @@ def Variants.beq : Variants → Variants → Bool
   | _, _ => false
 end
 
+/-- membership of a field in a field list -/
+inductive Fields.mem (n : B) (e : Bool) (t : Ty) : Fields → Prop where
+  | head (r : Fields) : Fields.mem n e t (.cons n e t r)
+  | tail (n' : B) (e' : Bool) (t' : Ty) (r : Fields) : Fields.mem n e t r → Fields.mem n e t (.cons n' e' t' r)
+
 def Fields.length : Fields → Nat
   | .nil => 0
   | .cons _ _ _ r => r.length + 1
